@@ -155,7 +155,7 @@ PROFILES = {
                  dens=[0.3, 0.5, 0.8], njobs=[4, 5, 6, 7, 8], p_raise=0.3, p_critical=0.2, p_timeout=0.1, p_nest=0.15),
     # critical windowed nested schedulers with many critical jobs queueing for a slot
     'cwin': dict(maxdepth=3, p_nest=0.35, njobs=[2, 3, 4], njobs_nested=[3, 4, 5, 6], p_window=0.8, windows=[1, 1, 2],
-                 p_critical=0.7, p_sched_critical=0.8, p_raise=0.3, dens=[0.0, 0.1, 0.3], p_timeout=0.1,
+                 p_critical=0.7, p_sched_critical=0.8, p_raise=0.3, dens=[0.0, 0.1, 0.3], p_timeout=0.25,
                  durs=[0.5, 1, 1, 2, 3], p_forever=0.05),
     'big': dict(njobs=[7, 8, 9, 10, 12], njobs_nested=[3, 4, 5, 6, 7], dens=[0.1, 0.2, 0.3], p_nest=0.2,
                 p_window=0.4, windows=[1, 2, 3, 4, 5], p_timeout=0.15, durs=[0, 0.5, 1, 1, 2, 2, 3], p_raise=0.2),
